@@ -276,10 +276,15 @@ func (e *Env) ident(name string) *SVal {
 		return &SVal{T: types.Typ[types.UntypedNil], K: KPtr, Term: bv64(0)}
 	}
 	if e.f != nil {
+		// an address-taken local (captured by a closure, named result with defers, &x, a struct assigned
+		// field by field): its current value - SSA debug references to such a variable only name the value it
+		// was initialised with
+		if p := e.f.resolveAllocLocal(name, e.at); p != nil && !e.f.isParamName(name) {
+			return e.g.load(e.cur, p, p.T.Underlying().(*types.Pointer).Elem())
+		}
 		if v := e.f.resolveLocal(name, e.at, e.atIdx, e.phiSub); v != nil {
 			return v
 		}
-		// an address-taken local (captured by a closure, named result with defers, &x): its current value
 		if p := e.f.resolveAllocLocal(name, e.at); p != nil {
 			return e.g.load(e.cur, p, p.T.Underlying().(*types.Pointer).Elem())
 		}
